@@ -135,6 +135,15 @@ var (
 	GS []int
 )
 
+// package-level objects for the template families
+type BS []byte
+type ZS string
+
+func G() *T  { return nil }
+func G2() *T { return &T{} }
+
+var Anchor T
+
 var ObsTab [%d]uint8
 
 func Obs(id int, bit uint8) { ObsTab[id] |= bit }
@@ -157,7 +166,7 @@ var _ lib.T
 `
 
 // domain sizes per kind (see the mk functions of the driver)
-var c15Dom = [...]int{kP: 2, kQ: 2, kPP: 3, kS: 3, kNS: 3, kM: 4, kC: 4, kF: 3, kA: 7, kI: 5, kU: 2, kX: 2}
+var c15Dom = [...]int{kP: 2, kQ: 2, kPP: 3, kS: 3, kNS: 3, kM: 4, kC: 4, kF: 3, kA: 7, kI: 5, kU: 2, kX: 2, kW: 2, kZ: 2}
 
 var c15DomNames = [...][]string{
 	kP:  {"nil", "&T{X:1}"},
@@ -172,6 +181,8 @@ var c15DomNames = [...][]string{
 	kI:  {"nil", "(*T)(nil)", "&T{}", "NS(nil)", "NS{1}"},
 	kU:  {"nil", "unsafe.Pointer(&T{})"},
 	kX:  {"nil", "non-nil"},
+	kW:  {"0", "uintptr(unsafe.Pointer(&Anchor))"},
+	kZ:  {"\"\"", "\"xy\""},
 }
 
 const c15DrvPre = `package main
@@ -411,6 +422,16 @@ func mk(kind byte, j int) any {
 		return mkU(j)
 	case 'k':
 		return j
+	case 'W':
+		if j == 0 {
+			return uintptr(0)
+		}
+		return uintptr(unsafe.Pointer(&lib.Anchor))
+	case 'Z':
+		if j == 0 {
+			return ""
+		}
+		return "xy"
 	}
 	panic("kind")
 }
@@ -512,7 +533,7 @@ func (fn *c15Fn) dims() []c15Dim {
 		d = append(d, dim)
 	}
 	if fn.UsesK {
-		d = append(d, c15Dim{"k", -3, 0, len(fn.Ops) + 1})
+		d = append(d, c15Dim{"k", -3, 0, fn.KMax + 1})
 	}
 	if fn.UsesFuel {
 		d = append(d, c15Dim{"fuel", -4, 0, 3})
@@ -558,7 +579,7 @@ func (fn *c15Fn) describeVec(vec int) string {
 
 var c15Mk = [...]string{kP: "mkP", kQ: "mkQ", kPP: "mkPP", kS: "mkS", kNS: "mkNS", kM: "mkM", kC: "mkC", kF: "mkF", kA: "mkA", kI: "mkI", kU: "mkU"}
 
-var c15KindLetter = [...]byte{kP: 'P', kQ: 'Q', kPP: 'D', kS: 'S', kNS: 'N', kM: 'M', kC: 'C', kF: 'F', kA: 'A', kI: 'I', kU: 'U'}
+var c15KindLetter = [...]byte{kP: 'P', kQ: 'Q', kPP: 'D', kS: 'S', kNS: 'N', kM: 'M', kC: 'C', kF: 'F', kA: 'A', kI: 'I', kU: 'U', kW: 'W', kZ: 'Z'}
 
 // c15DriverFor writes the table entries for one function (and its companion); cmp is the name of
 // its comparison function in package client ("" if none).
@@ -1111,6 +1132,9 @@ func c15Judge(mod *c15Module, a *c15Analysis, g *c15Ground, judge func(fn *c15Fn
 				local.byCat[o.Cat]++
 			}
 		}
+		if fn.Spec.Raw != nil {
+			local.byCat["family_"+fn.Spec.Raw.Family]++
+		}
 		if fn.Spec.Shape > 0 {
 			local.byCat[fmt.Sprintf("shape%d", fn.Spec.Shape)]++
 		}
@@ -1223,7 +1247,10 @@ func TestVerifC15(t *testing.T) {
 	thorough := vx.Thorough()
 	bounds := c15Bound(thorough)
 	if v, err := strconv.Atoi(os.Getenv("VERIF_C15_MAXSTMTS")); err == nil {
-		bounds.MaxStmts = v
+		bounds.MaxStmts = v // development aid: a prefix of the space (0 = functions without statements + the families)
+		if v == 0 {
+			bounds.ShapesUpTo = -1
+		}
 	}
 	st := &c15Stats{byCat: map[string]int64{}}
 	var stMu sync.Mutex
@@ -1259,14 +1286,22 @@ func TestVerifC15(t *testing.T) {
 	// pass 1: count the space (cheap), per size
 	total := 0
 	perSize := map[int]int{}
+	perFam := map[string]int{}
 	c15Enumerate(bounds, func(sp c15Spec) bool {
 		total++
-		perSize[len(sp.Ops)]++
+		if sp.Raw != nil {
+			perFam[sp.Raw.Family]++
+		} else {
+			perSize[len(sp.Ops)]++
+		}
 		return true
 	})
 	res.Count("space_functions", int64(total))
 	for sz, n := range perSize {
 		res.Count(fmt.Sprintf("space_functions_%d_stmts", sz), int64(n))
+	}
+	for f, n := range perFam {
+		res.Count("space_functions_family_"+f, int64(n))
 	}
 	res.Count("alphabet_statements", int64(len(c15Ops)))
 	if os.Getenv("VERIF_C15_COUNTONLY") == "1" {
@@ -1525,6 +1560,22 @@ func TestVerifC15(t *testing.T) {
 	}
 	res.Count("unasserted_disagreements_deferred_recover", int64(doubt))
 	res.Count("disagreements", int64(len(asserted)))
+	famKeys := map[string][]string{}
+	for _, f := range asserted {
+		fam := "alphabet"
+		if f.Fn.Spec.Raw != nil {
+			fam = "family_" + f.Fn.Spec.Raw.Family
+		}
+		res.Count("disagreements_"+fam, 1)
+		if len(famKeys[fam]) < 12 {
+			famKeys[fam] = append(famKeys[fam], f.Key)
+		}
+	}
+	for _, fam := range []string{"alphabet", "family_ret", "family_conv", "family_obj", "family_loop"} {
+		if len(famKeys[fam]) > 0 {
+			res.Note("first disagreements in %s: %s", fam, strings.Join(famKeys[fam], "  "))
+		}
+	}
 	// group by function; the functions with the smallest bodies are re-run in isolation (one module
 	// each, all in parallel: one round) and only what reproduces there is reported
 	maxConfirm := workers
